@@ -20,12 +20,19 @@ RULE = ('(a) histories over a shared heap of 3-6 program variables: unifications
         'assertz(p(T)), post-bindings`, disjunctive bindings with failure-driven assertion, two simultaneous uses and use by '
         'the asserting clause; compared with the value T had when asserted (computed by substitution).  Non-trivial: the '
         'asserted term contains a variable that is bound at assertion time, or the fact is non-ground and a goal on it '
-        'succeeds at least twice.  Distinct by hash of the case.')
+        'succeeds at least twice.  Distinct by hash of the case.  (c) ACROSS TIME: the driver keeps the live objects of every '
+        'answer it ever obtained (engine get_value at the answer: goals, their redo answers, every row of every read-back) and '
+        'renders all of them again after every step, variables numbered jointly with the program variables (sharing between '
+        'answers of different uses is part of the observation); histories contain findall/3 on the facts (suspended at the '
+        'unification with the bag), uses that are run to their end one after the other, steps that instantiate the answer of the '
+        'latest use; the facts are read back after every step or only at the end; compared with Engine/DbHeapRet.v; oracle: the '
+        'variables an answer brings in were never seen before.  Compiled templates seq_findall / seq_twice: findall, then a '
+        'later use that is instantiated; two findalls instantiated differently.')
 TRUSTED_BASE = [
     'Coq 8.16.1 kernel (coqc); vm_compute for the in-Coq evaluation of the model on every case',
     'no axioms: all C13 theorems are closed under the global context',
-    'hand-written model Engine/DbFacts.v (copy_term / Answer.__init__ / Answer.match) and Engine/DbHeap.v (shared heap, LIFO '
-    'generators) tied to /repo by this differential run',
+    'hand-written model Engine/DbFacts.v (copy_term / Answer.__init__ / Answer.match), Engine/DbHeap.v (shared heap, LIFO '
+    'generators) and Engine/DbHeapRet.v (findall/3, retained answers) tied to /repo by this differential run',
     'harness: generators, driver of the implementation (harness/props/c13.py), expected values of the program templates',
     'modelled, not verified: CPython generator protocol and finalisation order (LIFO close of suspended generators)',
 ]
